@@ -46,7 +46,7 @@ func TestVerifC14(t *testing.T) {
 			wfRoots = append(wfRoots, r)
 			continue
 		}
-		for _, p := range vrt.EnumeratePaths(r.MD, vrt.IsSAContainer, vrt.WalkOptions{MaxPerType: 2, ThroughBlobs: true}) {
+		for _, p := range vrt.EnumeratePaths(r.MD, vrt.IsSAContainer, vrt.WalkOptions{MaxPerType: vfMaxPerType(), ThroughBlobs: true}) {
 			jobs = append(jobs, job{r, p})
 		}
 	}
@@ -114,7 +114,7 @@ func TestVerifC14(t *testing.T) {
 		if tr.MatchMethod(r.Full) {
 			res.Violate("sa-workflowservice-not-excluded/match-method", fmt.Sprintf("MatchMethod(%s) = true", r.Full), map[string]any{"root": r.String()})
 		}
-		paths := vrt.EnumeratePaths(r.MD, vrt.IsSAContainer, vrt.WalkOptions{MaxPerType: 2, ThroughBlobs: true})
+		paths := vrt.EnumeratePaths(r.MD, vrt.IsSAContainer, vrt.WalkOptions{MaxPerType: vfMaxPerType(), ThroughBlobs: true})
 		for _, p := range paths {
 			// aliases spelled exactly like mapped keys of the direction that would apply
 			side := "local"
